@@ -234,7 +234,8 @@ def map_cycle_to_samples_augmented(cycle_vect, ii, phase):
 
 def map_sample_to_cycle(cycle_vect, ii):
     """Which cycle is the ii-th sample in?"""
-    return cycle_vect[ii]
+    cycle_ind = cycle_vect[ii]
+    return cycle_ind if cycle_ind > -1 else None
 
 
 def map_subset_to_cycle(subset_vect, ii):
